@@ -1095,6 +1095,53 @@ func caseC18(c *Ctx) {
 				continue
 			}
 		}
+		if i%40 == 5 && !gs.W.IsLocked() {
+			// (1) Relation() of a query whose filter was not told its relation must panic; (2) a relation component
+			// that is not one of the filter's components must be refused when the query is built; (3) a Filter0 that
+			// was given the relation through With reports the targets the core reports. None of it may leave a lock.
+			n := c.R.Intn(13)
+			f := gInsts[gKey{n, false}].NewFilter()
+			if c.R.Chance(0.5) {
+				q := f.Query(gs.W)
+				q.Q().Close()
+			}
+			q := f.Query(gs.W)
+			if q.Q().Next() {
+				if !mustPanic(func() { q.Relation() }) {
+					gs.fail("illegal.nopanic:generic.Query.Relation.norelation", "Query%d.Relation() of a filter without relation returned normally", n)
+				}
+				q.Q().Close()
+			}
+			if r0 := gs.keyID("R0"); r0 >= 0 && !gs.Failed() {
+				relT := generic.Comp(gs.M.Types[r0].Type)
+				f.WithRelation(relT)
+				if !mustPanic(func() {
+					q := f.Query(gs.W)
+					q.Q().Close()
+				}) {
+					gs.fail("illegal.nopanic:generic.Filter.WithRelation.foreign", "a Filter%d whose declared relation is not one of its components was accepted", n)
+				}
+				f0 := gInsts[gKey{0, false}].NewFilter()
+				f0.With(relT)
+				f0.WithRelation(relT)
+				q0 := f0.Query(gs.W)
+				for q0.Q().Next() && !gs.Failed() {
+					if got, want := q0.Relation(), gs.W.Relations().Get(q0.Q().Entity(), gs.IDs[r0]); got != want {
+						gs.fail("generic.query.relation", "Query0.Relation() is %v, Relations.Get %v", got, want)
+						q0.Q().Close()
+						break
+					}
+					gs.Cov.N["generic_query0_relations"]++
+				}
+			}
+			if gs.W.IsLocked() && !gs.Failed() {
+				gs.fail("illegal.lock:generic.Filter", "a rejected generic query left the world locked")
+			}
+			if gs.Failed() {
+				break
+			}
+			gs.Cov.N["generic_rejected_calls"]++
+		}
 		if i%40 == 25 && !gs.W.IsLocked() {
 			// a filter object that was used already is told to treat a plain component as its relation: the next
 			// use must be rejected, exactly as for a filter that was never used
